@@ -34,6 +34,9 @@ func (c16) Floors(tier string, c map[string]int64) []string {
 	if c["schemas"] < 100 {
 		out = append(out, "fewer than 100 coherent schemas checked")
 	}
+	if c["schemas_built_stepwise"] == 0 || c["rels_calls_while_building"] == 0 {
+		out = append(out, "no schema was built step by step with Rels() queried in between")
+	}
 	return out
 }
 
@@ -221,13 +224,72 @@ func (m c16) schemaCase(c *Ctx, s *SchemaSpec, r *RNG) {
 		}
 		return sc
 	}
+	// the same schema built step by step through the schema's own editing calls, with Rels()
+	// queried while it grows and after relationships were removed again ("how the schema was built")
+	buildStepwise := func(order []int, rr *RNG) *jsonapi.Schema {
+		sc := &jsonapi.Schema{}
+		for _, ti := range order {
+			if err := sc.AddType(jsonapi.Type{Name: s.Types[ti].Name}); err != nil {
+				panic("harness: " + err.Error())
+			}
+		}
+		type pend struct {
+			owner string
+			rel   RelSpec
+		}
+		var todo []pend
+		for _, t := range s.Types {
+			for _, rel := range t.Rels {
+				todo = append(todo, pend{t.Name, rel})
+			}
+		}
+		done := map[relKey]bool{}
+		for _, i := range rr.Perm(len(todo)) {
+			p := todo[i]
+			if rr.Chance(1, 2) {
+				_ = sc.Rels()
+				c.Count("rels_calls_while_building")
+			}
+			if done[relKey{p.owner, p.rel.Name}] {
+				continue
+			}
+			full := jsonapi.Rel{FromType: p.owner, FromName: p.rel.Name, ToOne: p.rel.ToOne, ToType: p.rel.ToType, ToName: p.rel.ToName, FromOne: p.rel.FromOne}
+			if p.rel.ToName != "" && !(p.owner == p.rel.ToType && p.rel.Name == p.rel.ToName) && !done[relKey{p.rel.ToType, p.rel.ToName}] && rr.Bool() {
+				if err := sc.AddTwoWayRel(full); err != nil {
+					panic("harness: AddTwoWayRel: " + err.Error())
+				}
+				done[relKey{p.owner, p.rel.Name}], done[relKey{p.rel.ToType, p.rel.ToName}] = true, true
+			} else {
+				if err := sc.AddRel(p.owner, full); err != nil {
+					panic("harness: AddRel: " + err.Error())
+				}
+				done[relKey{p.owner, p.rel.Name}] = true
+			}
+			if rr.Chance(1, 4) {
+				// add a stray relationship, look, and remove it again
+				if err := sc.AddRel(p.owner, jsonapi.Rel{FromType: p.owner, FromName: "zz-stray", ToType: p.owner}); err == nil {
+					_ = sc.Rels()
+					sc.RemoveRel(p.owner, "zz-stray")
+				}
+			}
+		}
+		return sc
+	}
 	orders := c.Pick(4, 8)
 	var first []string
 	for o := 0; o < orders; o++ {
 		order := r.Perm(len(s.Types))
 		var sc *jsonapi.Schema
 		var errs []error
-		if pi := Guard(func() { sc = build(order, r); errs = sc.Check() }); pi != nil {
+		if pi := Guard(func() {
+			if o%2 == 1 {
+				sc = buildStepwise(order, r)
+				c.Count("schemas_built_stepwise")
+			} else {
+				sc = build(order, r)
+			}
+			errs = sc.Check()
+		}); pi != nil {
 			c.Violate("panic@"+pi.Frame+"/schema-build", "%s: %s", jsonStr(s), pi)
 			return
 		}
